@@ -65,6 +65,15 @@ class C(P):
     a = 5
     z: str = Attr(default="z", init=False)
 ''',
+    "inherit_collision": '''
+class P:
+    a: int = 1
+    values: List[int] = Attr(default_factory=list)
+
+@spec_class%(deco)s
+class C(P):
+    value: int = 0
+''',
     "own_new": '''
 class C:
     a: int = Attr(default=3, repr=False)
@@ -94,7 +103,7 @@ class C:
 ''',
 }
 KEYED = {"keyed_preparer"}
-PARENT_DECORATED = {"inherit_lazy_parent"}
+PARENT_DECORATED = {"inherit_lazy_parent", "inherit_collision"}
 
 PRELUDE = '''
 import dataclasses
@@ -597,7 +606,7 @@ def main(run):
     tasks = [{"part": "seq", "body": b} for b in BODIES] + [{"part": "failing", "name": n} for n in FAILING]
     pairs = [("instantiate", "instantiate"), ("instantiate", "meta_then_helper"), ("instantiate", "fields_then_helper"), ("spec_class_attr", "dataclass_fields"),
              ("instantiate_kw", "subclass_instantiate"), ("dataclasses_fields", "instantiate"), ("subclass_meta", "instantiate")]
-    bodies_q = ["attr_factory", "one_attr", "inherit_lazy_parent", "own_new"]
+    bodies_q = ["attr_factory", "one_attr", "inherit_lazy_parent", "own_new", "inherit_collision"]
     for b in (bodies_q if quick else list(BODIES)):
         for tp in (pairs[:3] if quick else pairs):
             tasks.append({"part": "threads", "body": b, "triggers": list(tp), "bound": 1})
